@@ -289,13 +289,16 @@ var c19edit = newChk("C19", "parsed-set-edits",
 		case 5:
 			l.Labels = append(l.Labels, c.Name)
 			edited = append(edited, c.Name)
-		case 6, 7: // change only the letter case of one name (in place / through a new slice)
+		case 6, 7, 8, 9: // change only the letter case of one name, or only one separator of it (in place / through a new slice)
 			if n == 0 {
 				return nil
 			}
 			flipped := flipCase(orig[idx])
+			if c.Kind >= 8 {
+				flipped = joinLabels(orig[idx])
+			}
 			edited[idx] = flipped
-			if c.Kind == 6 {
+			if c.Kind == 6 || c.Kind == 8 {
 				l.Labels[idx] = flipped
 			} else {
 				l.Labels = append([]string{}, edited...)
@@ -332,9 +335,37 @@ var c19edit = newChk("C19", "parsed-set-edits",
 
 func TestC19_EditsRapid(t *testing.T) {
 	c19edit.rapidCheck(t, rapid.Custom(func(rt *rapid.T) c19Edit {
-		return c19Edit{Wire: gen.LabelWireNoDots(false).Draw(rt, "wire"), Kind: rapid.IntRange(0, 7).Draw(rt, "kind"),
+		return c19Edit{Wire: gen.LabelWireNoDots(false).Draw(rt, "wire"), Kind: rapid.IntRange(0, 9).Draw(rt, "kind"),
 			Idx: rapid.IntRange(0, 7).Draw(rt, "idx"), Name: gen.Name().Draw(rt, "name")}
 	}))
+}
+
+// joinLabels turns the first separator of a name into a label character when the joined label still fits 63 octets
+// (www.example.com → www-example.com): every octet but one stays, the number of labels changes. Names without such a
+// separator get their letter case toggled instead.
+func joinLabels(s string) string {
+	i := strings.IndexByte(s, '.')
+	if i <= 0 || i == len(s)-1 {
+		return flipCase(s)
+	}
+	j := strings.IndexByte(s[i+1:], '.')
+	if j < 0 {
+		j = len(s) - i - 1
+	}
+	if i+1+j > 63 || j == 0 {
+		return flipCase(s)
+	}
+	return s[:i] + "-" + s[i+1:]
+}
+
+// nameEdit is the edit flipNames / flipTreeNames apply: 0 letter case, 1 one separator.
+var nameEdit int
+
+func editName(s string) string {
+	if nameEdit == 1 {
+		return joinLabels(s)
+	}
+	return flipCase(s)
 }
 
 // flipCase toggles the case of every ASCII letter.
